@@ -384,9 +384,19 @@ def apply_args_op(args, model, op, owner):
     raise AssertionError(op)
 
 
-def _c18_run(seq, init):
-    owner = D.TexCmd('own', args=[mk_group(s) for s in init])
-    args = owner.args
+def _c18_run(seq, init, via='direct'):
+    if via == 'direct':
+        owner = D.TexCmd('own', args=[mk_group(s) for s in init])
+        args = owner.args
+    elif via == 'parsed':
+        # the argument list of a node of a parsed document
+        node = impl.parse('\\own' + ''.join(init) + '. tail').find('own')
+        owner, args = node, node.args
+    else:
+        # ... assigned through the documented setter `node.args = TexArgs(..)`
+        node = impl.parse('\\own{q}[r]{s}. tail').find('own')
+        node.args = D.TexArgs([mk_group(s) for s in init])
+        owner, args = node, node.args
     model = list(init)
     for step, op in enumerate(seq):
         io, mo = apply_args_op(args, model, op, owner)
@@ -402,13 +412,16 @@ def _c18_run(seq, init):
 
 def _c18_chunk(cases):
     r = Result('oracle-C18')
-    for init, seq in cases:
-        r.saw((tuple(init), tuple(map(str, seq))), nontrivial=len(seq) > 0)
-        step, d = _c18_run(seq, init)
+    for case in cases:
+        init, seq = case[0], case[1]
+        via = case[2] if len(case) > 2 else 'direct'
+        r.saw((tuple(init), tuple(map(str, seq)), via), nontrivial=len(seq) > 0)
+        r.count('list-obtained:' + via)
+        step, d = _c18_run(seq, init, via)
         if d is not None:
             kind, io, mo, st, mst = d
             r.fail(Failure('C18', 'argument-list-differs-from-list-' + kind,
-                           {'initial': list(init), 'ops': [list(map(str, o)) for o in seq[:step + 1]]},
+                           {'initial': list(init), 'via': via, 'ops': [list(map(str, o)) for o in seq[:step + 1]]},
                            {'returned': str(io), 'state': str(st)},
                            {'returned': str(mo), 'state': str(mst)}))
     return r
@@ -423,10 +436,18 @@ def oracle_C18(tier):
         for n in range(0, depth + 1):
             for seq in itertools.product(ops, repeat=n):
                 cases.append((init, seq))
+    # the same on the list of a PARSED node, and on a list assigned through the
+    # node's `args` setter (one level shallower)
+    for via in ('parsed', 'setter'):
+        for init in inits + [['{x}', '[y]']]:
+            for n in range(0, depth):
+                for seq in itertools.product(ops, repeat=n):
+                    cases.append((init, seq, via))
     nex = len(cases)
     rng = rng_for('C18', 'random')
     for _ in range(500 if tier == 'quick' else 20000):
-        cases.append((rng.choice(inits), tuple(rng.choice(ops) for _ in range(rng.randint(4, 30)))))
+        cases.append((rng.choice(inits), tuple(rng.choice(ops) for _ in range(rng.randint(4, 30))),
+                      rng.choice(['direct', 'parsed', 'setter'])))
     res = Result('oracle-C18')
     for r in pmap(_c18_chunk, chunked(cases, NPROC * 2)):
         res.merge(r)
@@ -452,10 +473,25 @@ WIDE = {'a': 'ab', 'b': 'b', 'c': 'c'}     # multi-character items (token_backed
 
 
 def items_of(seq, token_backed):
+    if token_backed == 5:
+        return list(seq)[1:]       # the wrapped buffer had already advanced by one
     return [WIDE[c] for c in seq] if token_backed == 2 else list(seq)
 
 
 def mkbuf(seq, token_backed):
+    if token_backed in (3, 4, 5, 6):
+        # a buffer over ANOTHER buffer (what Buffer(tokenize(..)) is), the inner
+        # one fresh (3), having looked ahead (4: peek, 6: peek(1)) or having
+        # advanced (5): the outer one is a cursor over what the inner one has
+        # not yet handed out
+        inner = Buffer(iter([Token(c, 10 + 3 * i) for i, c in enumerate(seq)]))
+        if token_backed == 4:
+            inner.peek()
+        elif token_backed == 6:
+            inner.peek(1)
+        elif token_backed == 5 and seq:
+            inner.forward(1)
+        return Buffer(inner)
     if token_backed == 2:
         pos, toks = 0, []
         for it in items_of(seq, 2):
@@ -576,12 +612,16 @@ def oracle_C20(tier):
                     cases.append((s, o, True))
                 if 'a' in s and (n <= 2 or tier != 'quick'):
                     cases.append((s, o, 2))        # items longer than one character
+                if n <= 1 or (n <= 2 and len(s) <= 2) or tier != 'quick':
+                    for tb in (3, 4, 5, 6):        # a buffer over a (used) buffer
+                        if tb != 5 or s:
+                            cases.append((s, o, tb))
     nex = len(cases)
     rng = rng_for('C20', 'random')
     for _ in range(1000 if tier == 'quick' else 30000):
         s = ''.join(rng.choice('abc') for _ in range(rng.randint(0, 8)))
         cases.append((s, tuple(rng.choice(ops) for _ in range(rng.randint(4, 40))),
-                      rng.choice([False, True, 2])))
+                      rng.choice([False, True, 2, 3, 4, 5, 6])))
     res = Result('oracle-C20')
     for r in pmap(_c20_chunk, chunked(cases, NPROC * 2)):
         res.merge(r)
